@@ -49,6 +49,7 @@ struct params {
   double switch_prob{0.2};            // RANDOM
   std::vector<change_point> changes;  // PCT: priority drops
   std::vector<int> priority_order;    // PCT: thread ids, highest priority first (others appended by id)
+  std::vector<std::pair<int, double>> kind_demote;  // PCT: at a hook of this kind, demote the running thread with this probability
   u64 max_steps{400000};
 };
 
@@ -88,6 +89,7 @@ class scheduler {
     signature = 0x51;
     nswitches = 0;
     intra_op_switches = 0;
+    kind_demotions = 0;
     spins = 0;
     restarts = 0;
     verdict.clear();
@@ -155,7 +157,7 @@ class scheduler {
       th[me].parked = true;
       th[me].park_hit = true;
     }
-    apply_change_points(me);
+    apply_change_points(me, kind);
     const int next = pick(me, kind);
     if (next != me) do_switch(me, next, kind);
   }
@@ -197,7 +199,7 @@ class scheduler {
   std::string verdict;
 
   // ---------------------------------------------------------- observation
-  u64 steps{0}, nswitches{0}, intra_op_switches{0}, spins{0}, restarts{0}, signature{0x51};
+  u64 steps{0}, nswitches{0}, intra_op_switches{0}, spins{0}, restarts{0}, signature{0x51}, kind_demotions{0};
   std::vector<switch_rec> switches;
   std::vector<u64> kind_counts;
   int threads_used() const { return nthreads; }
@@ -241,11 +243,13 @@ class scheduler {
     }
   }
 
-  void apply_change_points(int me) {
+  void apply_change_points(int me, int kind) {
     if (prm.strat != strategy::PCT) return;
     for (const auto& c : prm.changes) {
       if ((c.thread < 0 && c.step == steps) || (c.thread == me && c.step == th[me].local_steps)) th[me].priority = next_low_priority--;
     }
+    for (const auto& kd : prm.kind_demote)
+      if (kd.first == kind && r.chance(kd.second)) { th[me].priority = next_low_priority--; ++kind_demotions; }
   }
 
   void note_write_by(int me) {
